@@ -45,7 +45,8 @@ RULE = (
     "Limits, every other node with exact Limits, leaves sorted; kid nodes indirect (64% of the trees), all written "
     "inline as dictionaries inside /Kids (18%) or mixed (18%) - Table 36 asks for references, the property says 'direct "
     "or indirect nodes'; in 30% of the trees the two /Limits elements are indirect objects (both, or one of them; "
-    "the array itself direct or indirect); sibling order of Kids shuffled in ~15% "
+    "the array itself direct or indirect); in 25% of the name trees the key strings of the leaf arrays are indirect "
+    "objects (all of them, or 40%); sibling order of Kids shuffled in ~15% "
     "of the trees (7.9.6 orders only the leaf arrays). Labels: the tree always has page index 0, St>=1, roman values "
     "<=3999, letter values <=26 outside the tagged family. Text: PDFDocEncoding strings use only codes Annex D "
     "defines (HT LF CR, 0x18-0x1F, 0x20-0x7E, 0x80-0x9E, 0xA0-0xFF without 0xAD) and never start with FE FF or EF BB "
@@ -471,7 +472,7 @@ def minimums(tier: str) -> Dict[str, int]:
             "dumpoutline_pageno:action:explicit": 6000, "dumpoutline_pageno:action:string>dict>Dref": 30,
             "dumpoutline_pageno:action:name>dict>Dref": 30, "dumpoutline_pageno:action_indirect:explicit": 5000,
             "feat:limits_with_indirect_elements": 5000, "feat:nt_trees_limit_elems_indirect_2plus_leaves": 300,
-            "feat:pl_trees_limit_elems_indirect": 300,
+            "feat:pl_trees_limit_elems_indirect": 300, "feat:leaf_keys_indirect": 3000,
             "present:dict_present:shared_spelling": 1500, "present:tree_present:shared_spelling": 1500,
             "absent:dict_absent:spelled_like_tree_key": 800, "absent:dict_absent:no_dict:spelled_like_tree_key": 1000,
             "absent:tree_absent:spelled_like_dict_name": 3000, "feat:docs_with_shared_name_and_string_spellings": 800,
